@@ -174,6 +174,7 @@ def handle : Handler := fun op inp impl => do
     let adm := admissible c && strategyOK s
     let F := facts c s ns ref
     let holds := [("C10.finder_no_panic", !adm || noPanic io),
+                  ("C09.finder_no_panic", !adm || noPanic io),
                   ("C10.rollback_detected", rollbackDetected c s ns ref io),
                   ("C10.no_false_rollback", noFalseRollback c s ns ref io),
                   ("C10.inconsistent_is_opaque", inconsistentIsOpaque c s ns ref io),
@@ -198,6 +199,10 @@ def handle : Handler := fun op inp impl => do
                  | some F => [if F.waits then "facts:waits" else if F.rollingBack then "facts:rollback" else if F.inProgress then "facts:progressing" else "facts:idle",
                               if F.pth = "" then "pth:empty" else "pth:set"]
                  | none => ["facts:none"]) ++
+                (if producer == "producer:stsLike" &&
+                    c.unstructured.any (fun u => u.m.ns == ns && u.m.name == ref.name && (u.updateRevision == .wrongType || u.currentRevision == .wrongType)) &&
+                    (match getEmptyWorkloadObject c.filter (fromAPIVersionAndKind ref.apiVersion ref.kind) with | some (.unstructured _) => true | _ => false)
+                 then ["unstr:nonStringRevision"] else []) ++
                 (if producer == "producer:cloneSet" then
                    (c.cloneSets.filter (fun x => x.m.ns == ns && x.m.name == ref.name)).map (fun x => s!"dashes:{min (dashes x.updateRevision) 3}") else []) ++
                 (if o == .nothing && (match getRollingStyle s with | some st => (owners st c.filter (groupOf ref) ref.kind).isEmpty | none => false) then ["trivial"] else [])
